@@ -8,7 +8,8 @@ HMODULE = "H_C07"
 EXTRA_CHECK_FNS = ["check_bounds"]
 SHARD = 30
 RULE = ("KroneckerFactoredLattice layers built in float64: lattice_sizes 2-4, dims 1-4, units 1-3, terms 1-3, "
-        "monotonicity subsets (none / None / all-zero list / some / all; ints, strings, tuple), bounds "
+        "monotonicity subsets (none / None / EMPTY list [] or tuple () / all-zero list / some / all; ints, strings, "
+        "tuple), bounds "
         "none/min/max/both, clip_inputs on/off; kernels random / negative / far (+-64) / ties / sorted / zeros / "
         "perfect d-th powers; scales random / with exact zeros / one-signed / large / tiny; constraint "
         "histories from {kernel.constraint, scale.constraint, finalize_constraints} in both orders and "
@@ -92,6 +93,10 @@ def _monos(rng, dims):
   c = rng.random()
   if c < 0.12:
     return None, None
+  if rng.random() < 0.1:
+    # an EMPTY list / tuple: `if self.monotonicities:` and canonicalize_monotonicities treat it like None
+    # (no kernel constraint object, finalize_constraints leaves an unbounded layer unchanged)
+    return {"form": rng.choice(["int", "tuple"]), "ms": []}, []
   if c < 0.22:
     ms = [0] * dims
   elif c < 0.45:
@@ -370,7 +375,8 @@ def _eval_layer(tf, tfl, d):
         if d["omax"] is not None and o[u] > d["omax"] + tol(d["omax"]):
           fail = "output %r of unit %d at %r above output_max %r" % (o[u], u, p[u], d["omax"])
   fail = fail or aux_fail
-  mclass = "mNone" if ms is None else ("m0" if not any(ms) else ("mall" if all(ms) else "msome"))
+  mclass = "mNone" if ms is None else ("mEmpty" if not ms else
+                                       ("m0" if not any(ms) else ("mall" if all(ms) else "msome")))
   bclass = ("min" if d["omin"] is not None else "") + ("max" if d["omax"] is not None else "") or "nob"
   names = "".join(s[0] for s in d["steps"])
   hclass = "reassign" if "A" in names else (names if len(names) <= 2 else "repeat")
